@@ -902,7 +902,14 @@ def array(obj, dtype_=None, copy=True, ndmin=0, **kw):
         dt = _fit_width(cells, dt)
     return ndarray._make(cells, dt)
 
-asarray = asanyarray = lambda obj, dtype=None: obj if isinstance(obj, ndarray) and dtype is None else array(obj, dtype)
+def asanyarray(obj, dtype=None):
+    return obj if isinstance(obj, ndarray) and dtype is None else array(obj, dtype)
+
+def asarray(obj, dtype=None):
+    """base-class array; a view (no copy) when obj already is an array"""
+    if isinstance(obj, ndarray) and (dtype is None or _as_dtype(dtype) == obj.dtype):
+        return obj if type(obj) is ndarray else ndarray._make(None, obj.dtype, ndarray, obj._buf, obj._idx, obj._nd)
+    return array(obj, dtype)
 
 def arange(a, b=None, step=None, dtype=None):
     if step is not None: raise ModelGap("arange step")
@@ -1105,6 +1112,13 @@ def isnat(x):
         return ndarray._make([c == INT64_MIN for c in x._cells()], dtype(builtins.bool), type(x))
     if isinstance(x, (SymDT, SymTD)): return SymBool(x.e == INT64_MIN)
     raise TypeError("ufunc 'isnat' is only defined for np.datetime64 and np.timedelta64.")
+
+def isfinite(x):
+    if isinstance(x, SymF64): return SymBool(z3.Not(z3.Or(z3.fpIsInf(x.e), z3.fpIsNaN(x.e))))
+    if isinstance(x, ndarray):
+        if x.dtype.kind in "ib": return ndarray._make([z3.BoolVal(True)] * len(x), dtype(builtins.bool), type(x))
+        return _ufunc1(x, lambda c, d: z3.Not(z3.Or(z3.fpIsInf(c), z3.fpIsNaN(c))), dtype(builtins.bool), "f", "isfinite")
+    return math.isfinite(x)
 
 def isinf(x):
     if isinstance(x, SymF64): return SymBool(z3.fpIsInf(x.e))
